@@ -20,6 +20,7 @@ import (
 	"bytes"
 	"context"
 	"encoding/json"
+	"errors"
 	"flag"
 	"fmt"
 	"math/rand"
@@ -46,6 +47,7 @@ type lNode struct {
 	T      string `json:"t"`
 	S      []int  `json:"s,omitempty"` // mem: elements (1-based ranks in the universe underneath)
 	Absent bool   `json:"absent,omitempty"`
+	Alt    bool   `json:"alt,omitempty"` // mem, referrers: the manifests are stored under the index media type
 	Hop    int    `json:"hop,omitempty"`
 	N      int    `json:"n,omitempty"`
 	Max    int    `json:"max,omitempty"`
@@ -68,7 +70,7 @@ func (n *lNode) abstract() ev {
 	}
 	switch n.T {
 	case "mem":
-		return ev{"t": "mem", "s": ints(n.S), "absent": n.Absent}
+		return ev{"t": "mem", "s": ints(n.S), "absent": n.Absent, "alt": n.Alt}
 	case "http":
 		return ev{"t": "http", "hop": n.Hop, "n": n.N, "max": n.Max, "link": n.Link, "x": n.X.abstract()}
 	case "select":
@@ -90,6 +92,9 @@ func (n *lNode) String() string {
 	case "mem":
 		if n.Absent {
 			return "mem:absent"
+		}
+		if n.Alt {
+			return fmt.Sprintf("mem:alt%v", n.S)
 		}
 		return fmt.Sprintf("mem%v", n.S)
 	case "http":
@@ -129,6 +134,10 @@ type lCase struct {
 	K     int      `json:"k"`     // the consumer declines at its K-th call (0: never)
 	// stop points of the runs of the listing value (the first is K); empty: chosen by run
 	Passes []int `json:"passes,omitempty"`
+	// the listing's context is done once the consumer has received Cut items (0: before the
+	// listing is created, -1: never); Deadline: past its deadline rather than cancelled
+	Cut      int  `json:"cut"`
+	Deadline bool `json:"deadline,omitempty"`
 }
 
 const (
@@ -136,6 +145,7 @@ const (
 	lRepo      = "list/repo-1"
 	lMtImage   = "application/vnd.oci.image.manifest.v1+json"
 	lMtConfig  = "application/vnd.oci.image.config.v1+json"
+	lMtIndex   = "application/vnd.oci.image.index.v1+json"
 )
 
 // topUniv is the universe as the caller of the stack sees it.
@@ -477,7 +487,13 @@ func lPopulate(m *ocimem.Registry, kind string, n *lNode, univ []string, prefix 
 				return fmt.Errorf("populate tag %q: %v", univ[e-1], err)
 			}
 		} else {
-			if _, err := m.PushManifest(ctx, repo, "", refs[e-1].data, lMtImage); err != nil {
+			// The same bytes (hence the same digest) are a valid image manifest and a valid
+			// (empty) index with a subject: two registries may hold them under different types.
+			mt := lMtImage
+			if n.Alt {
+				mt = lMtIndex
+			}
+			if _, err := m.PushManifest(ctx, repo, "", refs[e-1].data, mt); err != nil {
 				return fmt.Errorf("populate referrer %d: %v", e, err)
 			}
 		}
@@ -536,6 +552,8 @@ type lPass struct {
 	errs    [][]string
 	n       int
 	stopped bool
+	cut     int
+	cancel  func()
 }
 
 func (p *lPass) consume(rank func(string) int, hardCap int) func(string, error) bool {
@@ -557,6 +575,9 @@ func (p *lPass) consume(rank func(string) int, hardCap int) func(string, error) 
 			call["e"] = "err"
 			call["x"] = 0
 			call["name"] = ""
+			if errors.Is(err, context.Canceled) || errors.Is(err, context.DeadlineExceeded) {
+				call["is"] = append(call["is"].([]string), "CONTEXT")
+			}
 			if p.compact {
 				p.errs = append(p.errs, call["is"].([]string))
 			} else {
@@ -574,6 +595,9 @@ func (p *lPass) consume(rank func(string) int, hardCap int) func(string, error) 
 			} else {
 				p.calls = append(p.calls, ev{"e": "item", "x": x, "name": name, "is": []string{}, "code": "", "status": 0})
 			}
+		}
+		if p.n == p.cut && p.cancel != nil {
+			p.cancel() // the context is done from now on; the consumer keeps accepting
 		}
 		if p.n == p.k {
 			p.stopped = true
@@ -602,13 +626,21 @@ func lListing(ctx context.Context, top ociregistry.Interface, kind, start string
 
 // passes runs one listing value once per stop point; the requests seen while the value was
 // created belong to the first run.  It returns the panic value, if the code panicked.
-func (st *lStack) passes(kind, start string, ks []int, rank func(string) int, hardCap int, compact bool) (out []ev, panicked any) {
+func (st *lStack) passes(kind, start string, ks []int, rank func(string) int, hardCap int, compact bool, cut int, deadline bool) (out []ev, panicked any) {
 	ctx, cancel := context.WithTimeout(context.Background(), 30*time.Second)
 	defer cancel()
+	if cut == 0 {
+		if deadline {
+			ctx, cancel = context.WithDeadline(context.Background(), time.Now().Add(-time.Second))
+			defer cancel()
+		} else {
+			cancel()
+		}
+	}
 	st.take()
 	var run func(func(string, error) bool)
 	for i, k := range ks {
-		p := &lPass{k: k, compact: compact, calls: []ev{}, runs: [][2]int{}, errs: [][]string{}}
+		p := &lPass{k: k, compact: compact, calls: []ev{}, runs: [][2]int{}, errs: [][]string{}, cut: cut, cancel: cancel}
 		panicked = func() (pv any) {
 			defer func() { pv = recover() }()
 			if i == 0 {
@@ -648,8 +680,11 @@ func (lr *lRunner) run(c *lCase) error {
 			c.Passes = append(c.Passes, 2)
 		}
 	}
+	if c.Cut >= 0 {
+		c.Passes = []int{c.K} // a listing whose context is done is run once
+	}
 	c.Passes[0] = c.K
-	e := ev{"op": "list", "src": c.Src, "kind": c.Kind, "k": c.K, "node": c.Node.abstract(), "stack": c.Node.String(),
+	e := ev{"cut": c.Cut, "deadline": c.Deadline, "op": "list", "src": c.Src, "kind": c.Kind, "k": c.K, "node": c.Node.abstract(), "stack": c.Node.String(),
 		"univ": c.Univ, "start": c.Start, "a": listPos(top, c.Start), "usize": len(top), "passes": c.Passes}
 	if c.Kind == "refs" {
 		e["a"] = 0
@@ -674,7 +709,7 @@ func (lr *lRunner) run(c *lCase) error {
 		st.cap *= len(c.Univ) + 3
 	}
 	st.cap = min(st.cap, 50000) + 50
-	ps, panicked := st.passes(c.Kind, c.Start, c.Passes, rank, len(c.Univ)+8, false)
+	ps, panicked := st.passes(c.Kind, c.Start, c.Passes, rank, len(c.Univ)+8, false, c.Cut, c.Deadline)
 	for k, v := range ps[0] {
 		e[k] = v
 	}
@@ -737,7 +772,7 @@ func (lr *lRunner) runBig(kind string, m int, pages []int, replay *lBigCase) err
 		lr.out.Encode(ev{"op": "reset", "case": lr.nCases})
 		lr.nCases++
 		lr.byKind["big:"+kind]++
-		ps, panicked := st.passes(kind, start, ks, rank, m+8, true)
+		ps, panicked := st.passes(kind, start, ks, rank, m+8, true, -1, false)
 		e := ev{"op": "biglist", "src": "big", "kind": kind, "m": m, "node": node.abstract(), "stack": node.String(),
 			"start": start, "a": listPos(univ, start), "ks": ks, "passes": ps}
 		if panicked != nil {
@@ -795,6 +830,7 @@ type lCfg struct {
 	Kind string `json:"kind"`
 	A    int    `json:"a"`
 	K    int    `json:"k"`
+	Cut  int    `json:"cut"`
 	Node *lNode `json:"node"`
 }
 
@@ -830,7 +866,11 @@ func (n *lNode) maxElem() int {
 // concretise turns a configuration of OciListMC into a case; salt varies the spelling of
 // start points.  usize: universe size (at least what the configuration mentions).
 func concretise(cfg *lCfg, salt int) *lCase {
-	c := &lCase{Src: "tlc", Kind: cfg.Kind, Node: cfg.Node, K: cfg.K}
+	c := &lCase{Src: "tlc", Kind: cfg.Kind, Node: cfg.Node, K: cfg.K, Cut: cfg.Cut, Deadline: cfg.Cut == 0 && salt%2 == 0}
+	if cfg.Kind == "refs" && salt%2 == 0 {
+		// second members of unifiers hold their referrers under the other media type
+		lAltSeconds(cfg.Node, false)
+	}
 	n := cfg.Node.maxElem()
 	if (cfg.A+1)/2 > n {
 		n = (cfg.A + 1) / 2
@@ -885,6 +925,18 @@ func concretise(cfg *lCfg, salt int) *lCase {
 	return c
 }
 
+// lAltSeconds marks the in-memory registries in the second member of every unifier.
+func lAltSeconds(n *lNode, second bool) {
+	if n == nil {
+		return
+	}
+	if n.T == "mem" {
+		n.Alt = second
+	}
+	lAltSeconds(n.X, second)
+	lAltSeconds(n.Y, second || n.T == "unify")
+}
+
 // ---------------------------------------------------------------- seeded random cases
 
 func lRandName(rnd *rand.Rand, tag bool) string {
@@ -926,7 +978,7 @@ func lRandSubset(rnd *rand.Rand, n int, p float64) []int {
 // randCase draws a case: universe of up to maxU names, a random stack of the given kind.
 func randCase(rnd *rand.Rand, maxU int) *lCase {
 	kinds := []string{"repos", "repos", "tags", "tags", "refs"}
-	c := &lCase{Src: "rand", Kind: kinds[rnd.Intn(len(kinds))]}
+	c := &lCase{Src: "rand", Kind: kinds[rnd.Intn(len(kinds))], Cut: -1}
 	n := rnd.Intn(maxU + 1)
 	if rnd.Intn(4) == 0 {
 		n = rnd.Intn(5)
@@ -988,6 +1040,7 @@ func randCase(rnd *rand.Rand, maxU int) *lCase {
 			if c.Kind != "repos" && rnd.Intn(8) == 0 {
 				m.S, m.Absent = nil, true
 			}
+			m.Alt = c.Kind == "refs" && rnd.Intn(2) == 0
 			if size > 0 && rnd.Intn(5) == 0 {
 				// a source that fails part-way, often seen through ocidebug
 				f := &lNode{T: "fail", At: 1 + rnd.Intn(size), X: m}
@@ -1056,6 +1109,18 @@ func randCase(rnd *rand.Rand, maxU int) *lCase {
 	} else {
 		c.K = 1 + rnd.Intn(len(top)+2)
 	}
+	if rnd.Intn(5) == 0 {
+		// the context is done after some items (before the listing exists only without a
+		// unifier: its members would see the context each in their own way)
+		c.Cut = rnd.Intn(len(top) + 1)
+		if c.Cut == 0 && strings.Contains(c.Node.String(), "unify") {
+			c.Cut = 1
+		}
+		c.Deadline = c.Cut == 0 && rnd.Intn(2) == 0
+		if rnd.Intn(2) == 0 {
+			c.K = 0
+		}
+	}
 	return c
 }
 
@@ -1074,7 +1139,7 @@ func lFixHops(n *lNode, next *int) {
 
 // bigCase: more tags than the default page size, listed with the default page size.
 func bigCase(count, page int, link bool) *lCase {
-	c := &lCase{Src: "big", Kind: "tags", K: 0, Passes: []int{0}}
+	c := &lCase{Src: "big", Kind: "tags", K: 0, Passes: []int{0}, Cut: -1}
 	s := []int{}
 	for i := 0; i < count; i++ {
 		c.Univ = append(c.Univ, fmt.Sprintf("t%05d", i))
@@ -1147,6 +1212,7 @@ func listCmd(args []string) error {
 				return nil
 			}
 			var c struct{ lCase }
+			c.Cut = -1
 			if err := json.Unmarshal(line, &c); err != nil {
 				return err
 			}
@@ -1160,7 +1226,7 @@ func listCmd(args []string) error {
 	if *cfgs != "" {
 		i := 0
 		err := readLines(*cfgs, func(line []byte) error {
-			var cfg lCfg
+			cfg := lCfg{Cut: -1}
 			if err := json.Unmarshal(line, &cfg); err != nil {
 				return fmt.Errorf("%v in %s", err, line)
 			}
@@ -1178,7 +1244,7 @@ func listCmd(args []string) error {
 			// the same stack listed from several start points / stop points
 			if j > 0 {
 				top := c.topUniv()
-				c = &lCase{Src: c.Src, Kind: c.Kind, Node: c.Node, Univ: c.Univ, Start: c.Start, K: rnd.Intn(len(top) + 3)}
+				c = &lCase{Src: c.Src, Kind: c.Kind, Node: c.Node, Univ: c.Univ, Start: c.Start, K: rnd.Intn(len(top) + 3), Cut: -1}
 				if c.Kind != "refs" && len(top) > 0 && rnd.Intn(2) == 0 {
 					c.Start = top[rnd.Intn(len(top))]
 					if rnd.Intn(2) == 0 {
